@@ -9,7 +9,7 @@ CLAIMED = {
    category="translation_validation",
    technique="property-based differential testing (rapid): typed query/graph generator; the emitted SQL text is executed by a PostgreSQL model (pgsim) and compared with an independent openCypher 9 reference evaluator (refcypher) at the exact determinacy the query fixes; stored-case replay of every finding",
    text="Differential execution: each generated read query (node/relationship/variable-length patterns in all directions, multi-pattern and multi-MATCH, OPTIONAL MATCH, WITH pipelines, WHERE boolean/comparison/string/null/kind/IN/pattern predicates, quantifiers, UNWIND, aggregation, DISTINCT, ORDER BY/SKIP/LIMIT, path and entity functions, parameters) is parsed and translated by DAWGS; the emitted SQL with the emitted parameters is executed on pgsim over the DAWGS schema and the rows are compared with refcypher's at the determinacy openCypher fixes (sequence / bag / bag modulo list order / row count - obtained from an exact observation channel of the reference under four tie-break orders) over random small graphs with self loops, parallel edges, multi-kind and kind-less nodes, missing and mixed-type properties. Translation errors, SQL run-time errors and reference run-time errors are 'rejected', which the property allows.",
-   note="Bounded by the generator fragment (no shortest-path execution, no writes, strings from [a-z0-9]*, graphs <= 6 nodes / 8 edges). PostgreSQL and openCypher are modelled, not run: pgsim and refcypher are calibrated against the repository's ~450 result-asserting integration cases (their package tests) and pgsim against the 373 golden statements. the open findings are excluded by named predicates over the query (one of them, optional-match-duplicate-origin-rows, also evaluates the query prefix on the case's graph and applies only when two incoming rows really are equal) and counted (about 10% of cases); three documented DAWGS dialect choices are kept out of the generator (leading OPTIONAL MATCH = MATCH, property + property = concatenation, stricter typing) and one is modelled in the reference (negated string predicate on a missing property).",
+   note="Bounded by the generator fragment (no shortest-path execution, no writes, strings from [a-z0-9]*, graphs <= 6 nodes / 8 edges). PostgreSQL and openCypher are modelled, not run: pgsim and refcypher are calibrated against the repository's ~450 result-asserting integration cases (their package tests) and pgsim against the 373 golden statements. the open findings are excluded by named predicates over the query (one of them, optional-match-duplicate-origin-rows, for the first OPTIONAL MATCH extending a bound variable also evaluates the query prefix on the case's graph and applies only when two incoming rows really are equal) and counted (about 10% of cases); three documented DAWGS dialect choices are kept out of the generator (leading OPTIONAL MATCH = MATCH, property + property = concatenation, stricter typing) and one is modelled in the reference (negated string predicate on a missing property).",
    design="§4 C01, §7.5"),
  "C02": dict(
    category="translation_validation",
